@@ -1,7 +1,7 @@
 import Ecal.Model.Parser
 /-!
 Model of parser/prettyprinter.go at the CURRENT commit of /repo (with the repairs 58be508 — bracket rule
-`ppNeedsBrackets` —, 4f48871 — empty block comment — and 9f2e979 — `if true {…}` is not an else branch).  Text is a byte list.
+`ppNeedsBrackets` —, 4f48871 — empty block comment —, e9f68ea — let / sink attributes are prefix operators — and 9f2e979 — `if true {…}` is not an else branch).  Text is a byte list.
 `Out.panic` = a Go panic (missing template, nil token, bad slice …), `Out.nilNode` = the
 "Nil pointer in AST" error.
 -/
@@ -59,7 +59,7 @@ def hexN (k n : Nat) : Txt := (List.range k).reverse.flatMap fun i => [(hex2 (n 
 def isPrint (r : Nat) : Bool :=
   if r < 0x80 then 0x20 ≤ r && r < 0x7F
   else if r < 0x100 then 0xA1 ≤ r && r != 0xAD
-  else !(isSpace r) && r != runeError && !(0xD800 ≤ r && r ≤ 0xDFFF) && !(0xE000 ≤ r && r ≤ 0xF8FF)
+  else !(isSpace r) && !(0xD800 ≤ r && r ≤ 0xDFFF) && !(0xE000 ≤ r && r ≤ 0xF8FF)
     && r != 0xFEFF && !(0x200B ≤ r && r ≤ 0x200F) && !(0x202A ≤ r && r ≤ 0x202E) && !(0x2060 ≤ r && r ≤ 0x206F)
 
 /-- strconv.Quote -/
@@ -117,12 +117,16 @@ def tmpl (key : String) : Option (List (String ⊕ Nat)) :=
   | "mutex_2" => some [.inl "mutex ", .inr 1, .inl " {\n", .inr 2, .inl "}\n"]
   | _ => none
 
+/-- ppIsOperator: an infix operator, or a keyword that is parsed like a prefix operator (ndPrefix) -/
+def isOperator (n : Node) : Bool :=
+  (n.binding != 0 && n.led != Led.none) || (n.children.length = 1 &&
+    ["not", "let", "kindmatch", "scopematch", "statematch", "priority", "suppresses"].contains n.name)
+
 /-- ppNeedsBrackets(parent, child, childIndex): does the printed child need parentheses to be parsed
-    again into the same position under its parent? -/
+    again into the same position under its parent? (with fix e9f68ea: `let` and the sink attributes count
+    as prefix operators) -/
 def needsBrackets (parent child : Node) (childIndex : Nat) : Bool :=
-  if child.binding = 0 || parent.binding = 0 ||
-      (child.led = Led.none && child.name != "not") ||
-      (parent.led = Led.none && parent.name != "not") then false   -- only operators under operators
+  if !isOperator child || !isOperator parent then false            -- only operators under operators
   else if parent.children.length = 1 then                          -- operand of a prefix operator (ndPrefix)
     decide (child.binding ≤ parent.binding + 20)
   else if child.children.length = 1 then                           -- prefix operator under an infix operator
